@@ -510,6 +510,9 @@ class Exec:
             if kind == "IntToInt":
                 sg, bits = parse_int(m.group(2))
                 return self.int_cast(v, sg, bits)
+            if kind == "IntToFloat" and isinstance(v, Int) and m.group(2) == "f64":
+                # real-valued abstraction: exact below 2^53, otherwise the nearest double (rounding not modelled)
+                return F64("(to_real %s)" % v.term)
             raise Unsupported("cast `%s`" % text)
         if text.startswith("copy ") or text.startswith("move ") or text.startswith("const "):
             return self.operand(st, fid, text)
